@@ -640,6 +640,8 @@ def check_none_sentinel(ctx, R, classes):
                     coll |= {x.id for x in ast.walk(n.iter) if isinstance(x, ast.Name) and x.id in opt}
                 if isinstance(n, ast.Call) and isinstance(n.func, ast.Name) and n.func.id in ('list', 'set', 'tuple', 'sorted', 'len') and n.args:
                     coll |= {x.id for x in ast.walk(n.args[0]) if isinstance(x, ast.Name) and x.id in opt}
+            # (`metadata` is no selection: None and the empty list both mean "no metadata", Stream._emit itself tests `if metadata:`)
+            coll.discard('metadata')
             for nm in sorted(coll):
                 truth = [node for e, style, node in _sentinel_tests(fn.node) if isinstance(e, ast.Name) and e.id == nm and style == 'truth']
                 R.ob('NONE-SENTINEL', ctx.construct(fn), 'param:' + nm, not truth,
